@@ -680,6 +680,14 @@ def s6(tier):
                                  'constraints': []}, 'S6'))
         out.append(spec([O, C], {'op': 'nest', 'outer': cross(['O'], ['O'], [{'c': 'MinimumTrials', 'k': k - 1}]), 'inner': cross(['C'], ['C']),
                                  'constraints': []}, 'S6'))
+    # the same on a two-level inner crossing, so that the sequence space stays small: the inner run is as long as the inner block's own
+    # MinimumTrials makes it (scaled crossing / Repeat)
+    for k in (3, 4):
+        out.append(spec([O, A], {'op': 'nest', 'outer': cross(['O'], ['O']), 'inner': cross(['A'], ['A'], [{'c': 'MinimumTrials', 'k': k}]),
+                                 'constraints': []}, 'S6'))
+        out.append(spec([O, A], {'op': 'nest', 'outer': cross(['O'], ['O']),
+                                 'inner': {'op': 'repeat', 'block': cross(['A'], ['A']), 'constraints': [{'c': 'MinimumTrials', 'k': k}]},
+                                 'constraints': []}, 'S6'))
     # Sequential on the outer factor (sustained cycle), constraint given to the Nest
     out.append(spec([O, A], {'op': 'nest', 'outer': cross(['O'], ['O']), 'inner': cross(['A'], ['A']),
                              'constraints': [{'c': 'Sequential', 'factor': 'O'}]}, 'S6'))
